@@ -185,6 +185,8 @@ func (r *reference) resolve(cfg *Config, opts *options) (value, error) {
 }
 
 func (r *reference) eval(cfg *Config, opts *options) (string, error) {
+	defer opts.enterReference()()
+
 	v, err := r.resolve(cfg, opts)
 	if err != nil {
 		return "", err
@@ -253,7 +255,9 @@ func (e *expansionAlt) eval(cfg *Config, opts *options) (string, error) {
 	}
 
 	ref := newReference(parsePath(path, e.pathSep, opts.maxIdx, opts.enableNumKeys, opts.escapePath))
+	leave := opts.enterReference()
 	tmp, err := ref.resolve(cfg, opts)
+	leave()
 	if err != nil || tmp == nil {
 		return "", nil
 	}
